@@ -118,6 +118,15 @@ where
             .or_default()
             .insert(v_node_index);
 
+        // when the edge already exists the weight recorded for traversal must follow the
+        // edge store: the minimum for parallel edges, the new weight if the stored edge is
+        // replaced (`KeepLast`), the stored weight if the new edge is ignored (`KeepFirst`)
+        let existing_weight = match (self.specs.multi_edges, &self.specs.edge_dedupe_strategy) {
+            (true, _) => ExistingWeight::KeepMinimum,
+            (false, EdgeDedupeStrategy::KeepLast) => ExistingWeight::Replace,
+            (false, _) => ExistingWeight::Keep,
+        };
+
         // add to the successors vec
         add_to_adjacency_vec(
             &mut self.successors_vec,
@@ -125,6 +134,7 @@ where
             ordered_edge_v,
             edge.weight,
             edge_already_exists,
+            &existing_weight,
         );
 
         // add to predecessors
@@ -144,6 +154,7 @@ where
                     ordered_edge_u,
                     edge.weight,
                     edge_already_exists,
+                    &existing_weight,
                 );
             }
             false => {
@@ -161,6 +172,7 @@ where
                     ordered_edge_u,
                     edge.weight,
                     edge_already_exists,
+                    &existing_weight,
                 );
             }
         }
@@ -457,6 +469,14 @@ where
     }
 }
 
+/// How the weight recorded for an adjacent node changes when another edge between
+/// the same two nodes is added.
+enum ExistingWeight {
+    KeepMinimum,
+    Replace,
+    Keep,
+}
+
 /**
 Adds a node to an adjacency (successor or predecessor) vector.
  */
@@ -466,15 +486,23 @@ fn add_to_adjacency_vec(
     v_node_index: usize,
     weight: f64,
     edge_already_exists: bool,
+    existing_weight: &ExistingWeight,
 ) {
     match edge_already_exists {
         true => {
-            let index = adjacency_vec[u_node_index]
-                .iter()
-                .position(|succ| succ.node_index == v_node_index)
-                .unwrap();
-            if weight < adjacency_vec[u_node_index][index].weight {
-                adjacency_vec[u_node_index][index] = AdjacentNode::new(v_node_index, weight);
+            // an undirected self-loop is listed twice, so update every entry
+            for adj in adjacency_vec[u_node_index]
+                .iter_mut()
+                .filter(|adj| adj.node_index == v_node_index)
+            {
+                let take_new_weight = match existing_weight {
+                    ExistingWeight::KeepMinimum => weight < adj.weight,
+                    ExistingWeight::Replace => true,
+                    ExistingWeight::Keep => false,
+                };
+                if take_new_weight {
+                    adj.weight = weight;
+                }
             }
         }
         false => adjacency_vec[u_node_index].push(AdjacentNode::new(v_node_index, weight)),
